@@ -7,8 +7,8 @@ E3 == {"E1", "E2", "E3"}
 K1 == {"K1"}
 K2 == {"K1", "K2"}
 K3 == {"K1", "K2", "K3"}
-A(E, K) == E \cup K \cup {"Z", "F", "N", "Q"}
-BalSmall(E, K) == [a \in A(E, K) |-> CASE a \in E -> 14 [] a \in K -> 3 [] a = "Q" -> 13 [] a = "Z" -> 1 [] OTHER -> 0]
+A(E, K) == E \cup K \cup {"Z", "F", "N", "Q", "P"}
+BalSmall(E, K) == [a \in A(E, K) |-> CASE a \in E -> 14 [] a \in K -> 3 [] a = "Q" -> 13 [] a = "Z" -> 1 [] a = "P" -> 1 [] OTHER -> 0]
 BalSmall11 == BalSmall(E1, K1)
 BalSmall22 == BalSmall(E2, K2)
 BalSmall23 == BalSmall(E2, K3)
@@ -77,6 +77,9 @@ ALSome == {"good", "bad"}
 
 \* ---- frame kinds / target restrictions ({} stands for "every account")
 FKOld == {"call", "create"}
+FKPre == {"call", "pcall"}
+TTK1P == {"K1", "P"}
+TKPre == {"call", "pbad"}
 FKAll == {"call", "delegate", "callcode", "static", "create", "create2"}
 FKCalls == {"call", "delegate", "callcode", "static"}
 FKNew == {"delegate", "callcode", "static", "create2"}
@@ -104,7 +107,7 @@ RB == {"B"}
 
 \* ---- conformance universes (the real protocol numbers; the driver uses every number verbatim)
 U == 1000000
-BalReal(E, K) == [a \in A(E, K) |-> CASE a \in E -> 60 * U [] a \in K -> 5 * U [] a = "Q" -> 50 * U [] a = "Z" -> 1 * U [] OTHER -> 0]
+BalReal(E, K) == [a \in A(E, K) |-> CASE a \in E -> 60 * U [] a \in K -> 5 * U [] a = "Q" -> 50 * U [] a = "Z" -> 1 * U [] a = "P" -> 1 [] OTHER -> 0]
 BalReal11 == BalReal(E1, K1)
 BalReal21 == BalReal(E2, K1)
 BalReal12 == BalReal(E1, K2)
